@@ -708,6 +708,142 @@ def batches(ck):
     ck.section("batches", batches=ncases, model_comparisons=len(terms))
 
 
+def symbolic(ck):
+    """Symbolic entries: programs over AffineTransforms whose matrices hold sympy polynomials (object dtype).  The
+    implementation runs symbolically; then the symbols are replaced by random integers in the inputs and in every
+    result, and the substituted results must be what the model computes from the substituted inputs (evaluation is
+    a ring homomorphism, and the theorems hold over every commutative ring)."""
+    import sympy
+    from nipy.core.api import AffineTransform, CoordinateSystem as CS
+    from nipy.core.reference import coordinate_map as cmod
+    rng = ck.rng("symbolic")
+    syms = sympy.symbols("a b c")
+    nprog = ck.n(40, 400)
+
+    pool = NAMES + ["p", "q", "r", "s", "o", "e", "f", "g", "h", "d"]
+
+    def rand_sym_aff(fresh, dom=None, maxdim=3):
+        """fresh: iterator over unused names; dom: reuse this coordinate system as the domain (so that compose applies)"""
+        nin = dom.ndim if dom is not None else int(rng.integers(1, maxdim + 1))
+        nout = int(rng.integers(1, maxdim + 1))
+        M = np.zeros((nout + 1, nin + 1), dtype=object)
+        for i in range(nout):
+            for j in range(nin + 1):
+                k = rng.random()
+                e = sympy.Integer(int(rng.integers(-2, 3)))
+                if k < 0.35:
+                    e = e + int(rng.integers(-2, 3)) * syms[int(rng.integers(0, 3))]
+                elif k < 0.45:
+                    e = e + syms[int(rng.integers(0, 3))] * syms[int(rng.integers(0, 3))]
+                M[i, j] = e
+        M[-1, :] = 0
+        M[-1, -1] = 1
+        d = dom if dom is not None else CS([next(fresh) for _ in range(nin)], str(rng.choice(SYSNAMES)), object)
+        return AffineTransform(d, CS([next(fresh) for _ in range(nout)], str(rng.choice(SYSNAMES)), object), M)
+
+    def rand_env():
+        fresh = iter([str(v) for v in rng.permutation(pool)])
+        env = []
+        for _ in range(int(rng.integers(2, 5))):
+            dom = env[int(rng.integers(0, len(env)))].function_range if env and rng.random() < 0.6 else None
+            env.append(rand_sym_aff(fresh, dom))
+        return env
+
+    def subst(a, vals):
+        M = np.array(a.affine, dtype=object)
+        out = np.zeros(M.shape, dtype=object)
+        for idx in np.ndindex(M.shape):
+            v = sympy.sympify(M[idx]).subs(vals)
+            fv = sympy.nsimplify(v) if not v.is_Integer else v
+            if not (fv.is_Integer or (fv.is_Rational and fv.q == 1)):
+                raise ValueError("non-integer after substitution: %r" % (v,))
+            out[idx] = int(fv)
+        return "(Build_aff %s %s %s)" % (ccs(a.function_domain), ccs(a.function_range), clist([czl([int(v) for v in row]) for row in out]))
+
+    terms, metas = [], []
+    for p in range(nprog):
+        env = rand_env()
+        env0 = list(env)
+        ops, results = [], []
+        for _ in range(int(rng.integers(1, 6))):
+            kind = str(rng.choice(["compose", "product", "reorder_dom", "reorder_rng", "rename_dom", "rename_rng", "shift_dom", "shift_rng", "append"]))
+            n = len(env)
+            s_ = int(rng.integers(0, n)); a = env[s_]
+            nin, nout = a.ndims
+            try:
+                if kind == "compose":
+                    srcs = [int(rng.integers(0, n))]
+                    cands = [i for i in range(n) if env[i].function_range == env[srcs[-1]].function_domain]
+                    srcs.append(int(rng.choice(cands)) if cands and rng.random() < 0.8 else int(rng.integers(0, n)))
+                    cop, f = "OCompose %s" % cnatl(srcs), (lambda: cmod.compose(*[env[i] for i in srcs]))
+                elif kind == "product":
+                    srcs = [int(rng.integers(0, n)) for _ in range(int(rng.integers(2, 4)))]
+                    cop, f = "OProduct %s" % cnatl(srcs), (lambda: cmod.product(*[env[i] for i in srcs]))
+                elif kind in ("reorder_dom", "reorder_rng"):
+                    nd = nin if kind == "reorder_dom" else nout
+                    order = [int(v) for v in rng.permutation(nd)]
+                    cop = "%s %s %s" % ("OReorderDom" if kind == "reorder_dom" else "OReorderRng", cnat(s_), cnatl(order))
+                    f = (lambda: a.reordered_domain(order)) if kind == "reorder_dom" else (lambda: a.reordered_range(order))
+                elif kind in ("rename_dom", "rename_rng"):
+                    names = list(a.function_domain.coord_names if kind == "rename_dom" else a.function_range.coord_names)
+                    d = {names[int(rng.integers(0, len(names)))]: "aa"}
+                    cop = "%s %s %s" % ("ORenameDom" if kind == "rename_dom" else "ORenameRng", cnat(s_), clist(["(%s, %s)" % (cstr(k), cstr(v)) for k, v in d.items()]))
+                    f = (lambda: a.renamed_domain(dict(d))) if kind == "rename_dom" else (lambda: a.renamed_range(dict(d)))
+                elif kind in ("shift_dom", "shift_rng"):
+                    nd = nin if kind == "shift_dom" else nout
+                    dl = [int(v) for v in rng.integers(-3, 4, nd)]
+                    cop = "%s %s %s %s" % ("OShiftDom" if kind == "shift_dom" else "OShiftRng", cnat(s_), czl(dl), cstr("neworigin"))
+                    f = (lambda: cmod.shifted_domain_origin(a, np.array(dl, dtype=object), "neworigin")) if kind == "shift_dom" else \
+                        (lambda: cmod.shifted_range_origin(a, np.array(dl, dtype=object), "neworigin"))
+                else:
+                    st, sp = int(rng.integers(-3, 4)), int(rng.integers(1, 4))
+                    cop, f = "OAppend %s %s %s %s %s" % (cnat(s_), cstr("aa"), cstr("bb"), cz(st), cz(sp)), (lambda: cmod.append_io_dim(a, "aa", "bb", st, sp))
+            except Exception:
+                continue
+            try:
+                r = f()
+                e = None
+            except Exception as ex:  # noqa
+                r, e = None, ex
+            if e is not None:
+                k = errkind(e)
+                if k is None:
+                    ck.fail("symbolic/%s/unexpected-exception" % kind, "%s on symbolic maps raised %s: %s" % (kind, type(e).__name__, e),
+                            {"op": cop, "env": [str(x.affine.tolist()) for x in env]})
+                    continue
+                results.append(("err", k))
+                ck.count(("sym", cop, "err"), nontrivial=False, bucket="symbolic:refused:" + kind)
+            else:
+                if not isinstance(r, AffineTransform):
+                    continue
+                results.append(("ok", r))
+                env.append(r)
+                ck.count(("sym", cop, str(r.affine.tolist())), nontrivial=True, bucket="symbolic:ok:" + kind)
+            ops.append(cop)
+        if not ops:
+            continue
+        for _ in range(2):
+            vals = {s: int(rng.integers(-4, 5)) for s in syms}
+            try:
+                exp = ["Err %s" % x[1] if x[0] == "err" else "Ok %s" % subst(x[1], vals) for x in results]
+                envs = [subst(x, vals) for x in env0]
+            except ValueError:
+                continue
+            terms.append("run_agrees %s %s %s" % (clist(envs), clist(["(%s)" % o for o in ops]), clist(["(%s)" % x for x in exp])))
+            metas.append({"symbolic_env": [str(x.affine.tolist()) for x in env0], "ops": ops, "substitution": {str(k): v for k, v in vals.items()},
+                          "results": [str(x[1].affine.tolist()) if x[0] == "ok" else x[1] for x in results]})
+        if p < 1:
+            ck.sample({"symbolic_ops": ops, "first_matrix": str(env0[0].affine.tolist())})
+    if ck.build.ok:
+        res = ck.coq_bools(HDR, terms, shard=60, name="symbolic")
+        ck.cov["traces_validated_against_impl"] += len(res)
+        for ok, m in zip(res, metas):
+            if not ok:
+                ck.fail("model-vs-impl/symbolic-program", "a program on symbolic (sympy) maps, evaluated at integer values of the symbols, is not what the model computes from the evaluated inputs", m)
+                break
+    ck.section("symbolic", programs=nprog, substituted_comparisons=len(terms))
+
+
 def run(ck):
     ck.cov["rule"] = ("random programs (length 1..8) over 3..5 random integer AffineTransforms (dims 1..4/5, unimodular/rank-deficient, "
                       "int64 and float64 systems, colliding names), ~22% of steps deliberately ill-typed; a case = one program step; "
@@ -789,5 +925,6 @@ def run(ck):
     cmaps(ck)
     axes(ck)
     batches(ck)
+    symbolic(ck)
     ck.trust.append("oracles: numpy.linalg.inv (candidate inverse is an input of the model, which re-checks shape/bottom row); "
                     "nibabel.io_orientation (its first column is an input of the model's io_axis_indices / drop_by_id; in random programs the (in,out) pair io_axis_indices returns is an input of the model's drop_io_dim)")
